@@ -75,7 +75,7 @@ VarDiff(g, e, mode) ==
   ELSE IF g.enc # e.enc THEN "encoding"
   ELSE IF ~ValsEq(g, e) THEN "values"
   ELSE IF mode = "full" /\ g.dt # e.dt THEN "dtype"
-  ELSE IF mode = "full" /\ g.attrs # e.attrs THEN "attributes"
+  ELSE IF mode = "full" /\ SeqSet(g.attrs) # SeqSet(e.attrs) THEN "attributes"
   ELSE ""
 
 DimSet(f) == {f.dims[i] : i \in 1..Len(f.dims)}
@@ -88,7 +88,7 @@ FileDiff(g, e, mode) ==
   ELSE IF \E k \in SeqSet(VarNames(e)) : VarDiff(VarRec(g, k), VarRec(e, k), mode) # ""
        THEN LET k == CHOOSE k \in SeqSet(VarNames(e)) : VarDiff(VarRec(g, k), VarRec(e, k), mode) # ""
             IN "variable " \o k \o ": " \o VarDiff(VarRec(g, k), VarRec(e, k), mode)
-  ELSE IF mode = "full" /\ g.attrs # e.attrs THEN "global attributes"
+  ELSE IF mode = "full" /\ SeqSet(g.attrs) # SeqSet(e.attrs) THEN "global attributes"
   ELSE ""
 
 \* ======================================================================= copy
